@@ -267,6 +267,26 @@ func (p *parser) parsePrimary() *expr {
 		if t.s == "null" {
 			return &expr{op: "null"}
 		}
+		if t.s == "case" {
+			// CASE WHEN c THEN a ELSE b END (one arm, as the store writes it)
+			if !p.kw("when") {
+				p.fail("only CASE WHEN is modelled")
+				return &expr{op: "null"}
+			}
+			c := p.parseOr()
+			if !p.kw("then") {
+				p.fail("expected THEN")
+			}
+			a := p.parseAdd()
+			var b *expr = &expr{op: "null"}
+			if p.kw("else") {
+				b = p.parseAdd()
+			}
+			if !p.kw("end") {
+				p.fail("expected END")
+			}
+			return &expr{op: "case", a: a, b: b, list: []*expr{c}}
+		}
 		if p.punct("(") {
 			// functions: lower/hex are the identity on the model's opaque tokens; randomblob yields a fresh token per evaluation
 			arg := p.parseAdd()
@@ -413,6 +433,11 @@ func (e *expr) eval(r []Val, args []Val) Val {
 			return NullVal
 		}
 		return boolVal(!truth(a))
+	case "case":
+		if truth(e.list[0].eval(r, args)) {
+			return e.a.eval(r, args)
+		}
+		return e.b.eval(r, args)
 	case "isnull":
 		return boolVal(e.a.eval(r, args).Null)
 	case "notnull":
@@ -502,9 +527,10 @@ func (p *parser) intOperand() int64 {
 
 // parseSelect parses AND evaluates
 //
-//	SELECT item {, item} FROM rel [WHERE e] [ORDER BY col [ASC|DESC] {, ...}] [LIMIT n [OFFSET m]]
+//	SELECT item {, item} FROM rel [WHERE e] [GROUP BY col {, col}] [ORDER BY key [ASC|DESC] {, ...}] [LIMIT n [OFFSET m]]
 //
-// with item = column | COUNT(*). The leading SELECT keyword is consumed here.
+// with item = expression over the relation's columns (incl. CASE WHEN c THEN a ELSE b END) | COUNT(*) | MIN(expr)
+// and key = column | COUNT(*). The leading SELECT keyword is consumed here.
 func (p *parser) parseSelect() *rel {
 	out := &rel{}
 	if !p.kw("select") {
@@ -512,24 +538,73 @@ func (p *parser) parseSelect() *rel {
 		return out
 	}
 	type item struct {
-		name  string
-		count bool
+		name string
+		agg  string // "", "count", "min"
+		e    *expr
 	}
-	var items []item
-	for {
-		c := p.next()
-		if c.k != "id" {
-			p.fail("bad select item")
-			return out
+	// the select items range over the relation named after FROM: find it first, then come back
+	i0 := p.i
+	depth, iFrom := 0, -1
+	for j := p.i; j < len(p.t) && p.t[j].k != "eof"; j++ {
+		if p.t[j].k == "p" && p.t[j].s == "(" {
+			depth++
 		}
-		if c.s == "count" {
-			if !p.punct("(") || !p.punct("*") || !p.punct(")") {
-				p.fail("only COUNT(*) is modelled")
-				return out
+		if p.t[j].k == "p" && p.t[j].s == ")" {
+			depth--
+			if depth < 0 {
+				break
 			}
-			items = append(items, item{count: true})
+		}
+		if depth == 0 && p.t[j].k == "id" && p.t[j].s == "from" {
+			iFrom = j
+			break
+		}
+	}
+	if iFrom < 0 {
+		p.fail("expected FROM")
+		return out
+	}
+	cols, rows, ok := p.source(p.t[iFrom+1].s)
+	if !ok {
+		p.i = iFrom + 1
+		p.fail("unknown relation")
+		return out
+	}
+	saved := p.cols
+	p.cols = cols
+	defer func() { p.cols = saved }()
+	p.i = i0
+	var items []item
+	aggregated := false
+	for {
+		c := p.peek()
+		if c.k == "id" && (c.s == "count" || c.s == "min") && p.t[p.i+1].k == "p" && p.t[p.i+1].s == "(" {
+			p.i += 2
+			if c.s == "count" {
+				if !p.punct("*") || !p.punct(")") {
+					p.fail("only COUNT(*) is modelled")
+					return out
+				}
+				items = append(items, item{name: "count", agg: "count"})
+			} else {
+				e := p.parseAdd()
+				if !p.punct(")") {
+					p.fail("expected ) after MIN")
+					return out
+				}
+				items = append(items, item{name: "min", agg: "min", e: e})
+			}
+			aggregated = true
 		} else {
-			items = append(items, item{name: c.s})
+			e := p.parseAdd()
+			name := "expr"
+			if e.op == "col" {
+				name = e.name
+			}
+			items = append(items, item{name: name, e: e})
+		}
+		if p.err != nil {
+			return out
 		}
 		if !p.punct(",") {
 			break
@@ -539,21 +614,33 @@ func (p *parser) parseSelect() *rel {
 		p.fail("expected FROM")
 		return out
 	}
-	cols, rows, ok := p.source(p.next().s)
-	if !ok {
-		p.fail("unknown relation")
-		return out
-	}
-	saved := p.cols
-	p.cols = cols
-	defer func() { p.cols = saved }()
+	p.next() // relation name (resolved above)
 	var where *expr
 	if p.kw("where") {
 		where = p.parseOr()
 	}
+	var groupBy []int
+	if p.kw("group") {
+		if !p.kw("by") {
+			p.fail("expected BY")
+		}
+		for {
+			c := p.next()
+			if c.k != "id" || p.col(c.s) < 0 {
+				p.fail("bad GROUP BY column")
+				return out
+			}
+			groupBy = append(groupBy, p.col(c.s))
+			if !p.punct(",") {
+				break
+			}
+		}
+		aggregated = true
+	}
 	type key struct {
-		idx  int
-		desc bool
+		idx   int
+		count bool
+		desc  bool
 	}
 	var keys []key
 	if p.kw("order") {
@@ -562,11 +649,19 @@ func (p *parser) parseSelect() *rel {
 		}
 		for {
 			c := p.next()
-			if c.k != "id" || p.col(c.s) < 0 {
+			k := key{}
+			if c.k == "id" && c.s == "count" && p.punct("(") {
+				if !p.punct("*") || !p.punct(")") {
+					p.fail("only COUNT(*) is modelled")
+					return out
+				}
+				k.count = true
+			} else if c.k != "id" || p.col(c.s) < 0 {
 				p.fail("bad ORDER BY column")
 				return out
+			} else {
+				k.idx = p.col(c.s)
 			}
-			k := key{idx: p.col(c.s)}
 			if p.kw("desc") {
 				k.desc = true
 			} else {
@@ -594,6 +689,117 @@ func (p *parser) parseSelect() *rel {
 			sel = append(sel, r)
 		}
 	}
+	for _, it := range items {
+		out.cols = append(out.cols, it.name)
+	}
+	if aggregated {
+		// groups in ascending order of their key (what SQLite's sorter produces when no ORDER BY follows); without
+		// GROUP BY the whole selection is one group, present even when it is empty
+		type group struct {
+			rows [][]Val
+		}
+		var groups []*group
+		if len(groupBy) == 0 {
+			groups = []*group{{rows: sel}}
+		}
+		keyLess := func(a, b []Val) bool {
+			for _, c := range groupBy {
+				if truth(cmp("<", a[c], b[c])) {
+					return true
+				}
+				if truth(cmp("<", b[c], a[c])) {
+					return false
+				}
+			}
+			return false
+		}
+		if len(groupBy) > 0 {
+			for _, r := range sel {
+				var g *group
+				for _, x := range groups {
+					if !keyLess(x.rows[0], r) && !keyLess(r, x.rows[0]) {
+						g = x
+					}
+				}
+				if g == nil {
+					g = &group{}
+					groups = append(groups, g)
+				}
+				g.rows = append(g.rows, r)
+			}
+			for i := 1; i < len(groups); i++ {
+				for j := i; j > 0 && keyLess(groups[j].rows[0], groups[j-1].rows[0]); j-- {
+					groups[j], groups[j-1] = groups[j-1], groups[j]
+				}
+			}
+		}
+		if len(keys) > 0 {
+			kval := func(g *group, k key) Val {
+				if k.count {
+					return Int(int64(len(g.rows)))
+				}
+				if len(g.rows) == 0 {
+					return NullVal
+				}
+				return g.rows[0][k.idx]
+			}
+			less := func(a, b *group) bool {
+				for _, k := range keys {
+					x, y := kval(a, k), kval(b, k)
+					if k.desc {
+						x, y = y, x
+					}
+					if truth(cmp("<", x, y)) {
+						return true
+					}
+					if truth(cmp("<", y, x)) {
+						return false
+					}
+				}
+				return false
+			}
+			for i := 1; i < len(groups); i++ {
+				for j := i; j > 0 && less(groups[j], groups[j-1]); j-- {
+					groups[j], groups[j-1] = groups[j-1], groups[j]
+				}
+			}
+		}
+		for n, g := range groups {
+			if int64(n) < offset {
+				continue
+			}
+			if limit >= 0 && int64(len(out.rows)) >= limit {
+				break
+			}
+			row := make([]Val, len(items))
+			for i, it := range items {
+				switch it.agg {
+				case "count":
+					row[i] = Int(int64(len(g.rows)))
+				case "min":
+					m := NullVal
+					for _, r := range g.rows {
+						v := it.e.eval(r, p.vals)
+						if v.Null {
+							continue
+						}
+						if m.Null || truth(cmp("<", v, m)) {
+							m = v
+						}
+					}
+					row[i] = m
+				default:
+					if len(g.rows) == 0 {
+						row[i] = NullVal
+					} else {
+						row[i] = it.e.eval(g.rows[0], p.vals)
+					}
+				}
+			}
+			out.rows = append(out.rows, row)
+		}
+		return out
+	}
 	// insertion sort; rows that tie on every key come out in table (rowid) order for an ascending first key and in
 	// reverse table order for a descending one — what SQLite's forward/backward index scans produce for these
 	// queries (SQL itself leaves the order of ties open; the native differential validation pins this choice)
@@ -605,6 +811,9 @@ func (p *parser) parseSelect() *rel {
 		}
 		less := func(a, b []Val) bool {
 			for _, k := range keys {
+				if k.count {
+					continue
+				}
 				x, y := a[k.idx], b[k.idx]
 				if k.desc {
 					x, y = y, x
@@ -624,25 +833,6 @@ func (p *parser) parseSelect() *rel {
 			}
 		}
 	}
-	for _, it := range items {
-		if it.count {
-			out.cols = append(out.cols, "count")
-		} else {
-			out.cols = append(out.cols, it.name)
-		}
-	}
-	if len(items) == 1 && items[0].count {
-		out.rows = [][]Val{{Int(int64(len(sel)))}}
-		return out
-	}
-	idx := make([]int, len(items))
-	for i, it := range items {
-		idx[i] = p.col(it.name)
-		if it.count || idx[i] < 0 {
-			p.fail("bad select column " + it.name)
-			return out
-		}
-	}
 	for n, r := range sel {
 		if int64(n) < offset {
 			continue
@@ -650,9 +840,9 @@ func (p *parser) parseSelect() *rel {
 		if limit >= 0 && int64(len(out.rows)) >= limit {
 			break
 		}
-		row := make([]Val, len(idx))
-		for i, c := range idx {
-			row[i] = r[c]
+		row := make([]Val, len(items))
+		for i, it := range items {
+			row[i] = it.e.eval(r, p.vals)
 		}
 		out.rows = append(out.rows, row)
 	}
